@@ -322,8 +322,8 @@ def load_known(pid):
         with open(KNOWN) as f:
             for line in f:
                 line = line.strip()
-                if not line or line.startswith("#"):
-                    continue
+                if not line.startswith("{"):
+                    continue        # comments and "fixed: property=<id> <commit> <what>" lines
                 r = json.loads(line)
                 if r.get("property") == pid:
                     recs.append(r)
